@@ -612,6 +612,8 @@ static int ec_write(char *loc, char *cmd, char *arg, char *txt)
 	}
 	snprintf(msg, sizeof(msg), "\"%s\"  [=%d]  [w]", path, end - beg);
 	ex_show(msg);
+	if (path[0] == '!')
+		return 0;
 	if (!ex_path()[0]) {
 		free(bufs[0].path);
 		bufs[0].path = uc_dup(path);
